@@ -1,0 +1,22 @@
+//go:build verif
+
+package tsdb
+
+import "sync/atomic"
+
+var verifPointFn atomic.Value // of func(name string, args ...interface{})
+
+// SetVerifPoint registers fn to be called, on the calling goroutine, at every durable
+// step marked with verifPoint. A nil fn removes the callback.
+func SetVerifPoint(fn func(name string, args ...interface{})) {
+	if fn == nil {
+		fn = func(string, ...interface{}) {}
+	}
+	verifPointFn.Store(fn)
+}
+
+func verifPoint(name string, args ...interface{}) {
+	if fn, ok := verifPointFn.Load().(func(string, ...interface{})); ok {
+		fn(name, args...)
+	}
+}
